@@ -1,6 +1,6 @@
 (* Props/C02.v — C02: end-of-stream follows all data; half-close; tear-down. *)
 From Coq Require Import List NArith Ascii Bool Lia.
-From SV Require Import Model.StreamQuiet Proofs.Stream_quiet Model.StreamDrain Proofs.Stream_drain Proofs.Stream_drain_clean Lib.Bytes Model.Wire Model.Chan Model.Stream
+From SV Require Import Model.StreamQuiet Proofs.Stream_quiet Model.StreamDrain Proofs.Stream_drain Proofs.Stream_drain_clean Model.StreamLoop Proofs.Stream_loop Lib.Bytes Model.Wire Model.Chan Model.Stream
   Proofs.Stream_basic Proofs.Stream_wrap Proofs.Stream_cb Proofs.Stream_reg Proofs.Stream_view
   Proofs.Stream_flow Proofs.Stream_props Gen.Consts.
 Import ListNotations.
@@ -229,3 +229,131 @@ Example c02_ex_clean_clauses_needed :
              match run w (drain_of w) with Ok w' => w_stale w' = true | Crash _ => False end
    | Crash _ => False end).
 Proof. vm_compute. splits; reflexivity. Qed.
+
+(* (g) The MAIN LOOP (Model/StreamLoop.v, Proofs/Stream_loop.v).  The statements above quantify over all orders of
+   micro-steps; the real loops are structured: runonce = drop dead handlers; pre_select of every handler in list
+   order (the multiplexer FIRST — and, since the repair of finding F160, once more at the end); select() WITHOUT
+   timeout; callbacks of the handlers with a ready descriptor, in list order; then check_fullness.
+   `iteration lat sd a w` is one such iteration of end sd as a sequence of micro-steps (a: what select() and the
+   socket calls answer; lat: latency control on), `presel_pass` the part before select(), `sleepsb` = select() has
+   nothing it could report by itself (the process sleeps until the other end or a new connection wakes it),
+   `sleeps_eagerb` = nothing it waits for is ready in the eager environment of (a)-(f), `lreach` = reached from
+   world0 by complete iterations of either end in any interleaving, with any answers, and connections arriving in
+   between.  `…_asfound` is runonce as found (Mux.pre_select first and only once); names ending in `_v` take the
+   variant as a parameter (false: as found, true: repaired).
+   (g1) an iteration is a micro-step run, so every theorem above applies to states reached by iterations *)
+Theorem c02_iteration_is_run : forall fx lat sd a w,
+  iteration_v fx lat sd a w = run w (iter_events_v fx lat sd a w).
+Proof. exact iteration_is_run_v. Qed.
+Print Assumptions c02_iteration_is_run.
+
+Theorem c02_loop_reachable : forall fx lat maxc lbs w,
+  lreach_v fx lat maxc lbs w -> exists evs, run (world0 maxc lbs) evs = Ok w.
+Proof. exact lreach_reachable_v. Qed.
+Print Assumptions c02_loop_reachable.
+
+(* the pass before select() never raises, and is itself a micro-step run *)
+Theorem c02_pass_total : forall fx sd w,
+  exists po, presel_pass_v fx sd w = Ok po /\ run w (pass_events sd w) = Ok (po_w po).
+Proof. intros fx sd w. destruct (pass_never_crashes_v fx sd w) as (po & H). exists po. split; [exact H|exact (pass_is_run_v fx sd w po H)]. Qed.
+Print Assumptions c02_pass_total.
+
+(* (g2) the loop invariant the micro-step model cannot have: BETWEEN iterations every live handler owes nothing —
+   a peer's EOF whose data is drained has been passed on (shutdown issued), an end-of-stream read with the buffer
+   drained has been queued as EOF, nothing is kept for a closed direction.  (Frames are dispatched only inside
+   Mux.callback, and whenever Mux.callback runs every proxy, also one it has just created, is called afterwards in
+   the same iteration: every proxy holds both tunnel descriptors.) *)
+Theorem c02_loop_settled : forall fx lat maxc lbs w sd f p,
+  lreach_v fx lat maxc lbs w -> e_prox (get_end w sd) f = Some p -> live p = true -> settledb p = true.
+Proof. intros fx lat maxc lbs w sd f p H Hp Hl. apply settledb_spec. exact (lreach_settled_v fx lat maxc lbs w H sd f p Hp Hl). Qed.
+Print Assumptions c02_loop_settled.
+
+(* (g3) NO LOST WAKE-UP (the code as repaired).  In every state reached by complete iterations: if select() of end
+   sd has nothing ready (strict = true: nothing it could report by itself; strict = false: nothing ready in the
+   eager environment) then its outgoing queue is EMPTY, and every handler the loop still runs owes nothing, has
+   s.shut_write => m.shut_read and m.shut_write => s.shut_read, and has one of these shapes (sleep_shapeb): paused
+   by latency control while holding data; own EOF sent, waiting for the peer's; all four flags set and buffers
+   empty with ok still True (the shape of finding F20); and for strict = false also: connecting, or waiting for
+   its socket to become readable. *)
+Theorem c02_no_lost_wakeup : forall (strict lat : bool) maxc lbs w sd po,
+  lreach lat maxc lbs w -> presel_pass sd w = Ok po ->
+  sleeps_of (fun p fd => if strict then fd_cand fd else fd_ready p fd) sd po = true ->
+  let e1 := get_end (po_w po) sd in
+  x_out (e_mux e1) = [] /\
+  forall f p1, e_prox e1 f = Some p1 -> active p1 = true -> sleep_shapeb strict p1 (e_mux e1) = true.
+Proof. exact no_lost_wakeup. Qed.
+Print Assumptions c02_no_lost_wakeup.
+
+(* ... so both ends sleeping IS quiescence, and (a)-(c) hold of it *)
+Theorem c02_both_sleep_quiescent : forall (strict lat : bool) maxc lbs w,
+  lreach lat maxc lbs w ->
+  (forall sd, (if strict then sleepsb sd w else sleeps_eagerb sd w) = true) ->
+  (if strict then quiescent_eagerb w else quiescentb w) = true.
+Proof. exact both_sleep_quiescent. Qed.
+Print Assumptions c02_both_sleep_quiescent.
+
+(* (g4) the code AS FOUND: the queue of a sleeping end holds EXACTLY the STOP_SENDING messages Proxy.pre_select
+   queued in this very pass, after Mux.pre_select had found the queue empty (late_frames: one per handler with
+   shut_write on its socket and no shut_read on its tunnel wrapper) — nothing iff no handler is in that situation
+   (no_late_stopb); the handlers are as in (g3) *)
+Theorem c02_no_lost_wakeup_asfound : forall (strict lat : bool) maxc lbs w sd po,
+  lreach_asfound lat maxc lbs w -> presel_pass_asfound sd w = Ok po ->
+  sleeps_of (fun p fd => if strict then fd_cand fd else fd_ready p fd) sd po = true ->
+  let e1 := get_end (po_w po) sd in
+  x_out (e_mux e1) = late_frames sd w /\
+  (no_late_stopb sd w = true -> x_out (e_mux e1) = []) /\
+  forall f p1, e_prox e1 f = Some p1 -> active p1 = true -> sleep_shapeb strict p1 (e_mux e1) = true.
+Proof. exact no_lost_wakeup_asfound. Qed.
+Print Assumptions c02_no_lost_wakeup_asfound.
+
+Theorem c02_both_sleep_quiescent_asfound : forall (strict lat : bool) maxc lbs w,
+  lreach_asfound lat maxc lbs w ->
+  (forall sd, (if strict then sleepsb_asfound sd w else sleeps_eagerb_asfound sd w) = true) ->
+  no_late_stopb Client w = true -> no_late_stopb Server w = true ->
+  (if strict then quiescent_eagerb w else quiescentb w) = true.
+Proof. exact both_sleep_quiescent_asfound. Qed.
+Print Assumptions c02_both_sleep_quiescent_asfound.
+
+(* (g5) the hypothesis cannot be dropped for the code as found: finding F160 (fixed).  The application stops reading
+   (EPIPE) while data of the destination is on its way, the client sends STOP_SENDING; in the iteration in which
+   the server dispatches it the destination socket fails.  That callback queues nothing; the next pre_select
+   queues STOP_SENDING after Mux.pre_select found the queue empty; select() has nothing to report: the server
+   sleeps with the message in its queue, the client keeps handler, socket and identifier of the flow.  Replayed on
+   the real code by harness/props/stream_common.py (EXTRA_CASES["C02"], finding_id F160). *)
+Theorem c02_no_lost_wakeup_asfound_refuted :
+  ~ (forall lat maxc lbs w sd po, lreach_asfound lat maxc lbs w -> presel_pass_asfound sd w = Ok po ->
+       sleeps_of (fun _ => fd_cand) sd po = true -> x_out (e_mux (get_end (po_w po) sd)) = []).
+Proof. exact no_lost_wakeup_asfound_refuted. Qed.
+Print Assumptions c02_no_lost_wakeup_asfound_refuted.
+
+Example c02_ex_f160_state :
+  lreach_asfound true 5 32768 f160_world /\
+  sleepsb_asfound Server f160_world = true /\
+  queue_after false Server f160_world = [mkSF 1 CStop [] (Some 0)] /\
+  sleeps_eagerb_asfound Client f160_world = true /\
+  no_late_stopb Server f160_world = false /\
+  quiescentb f160_world = false /\
+  x_chan (e_mux (w_cl f160_world)) 1 = Some 0 /\
+  (* the same script on the repaired loop does not leave the server asleep *)
+  sleepsb Server (world_of_v true f160_script) = false.
+Proof.
+  split; [exact f160_reached|]. destruct f160_state as (A & B & C & D & E & F & _ & G). splits; assumption.
+Qed.
+
+(* (g6) the same as booleans (what the driver evaluates and the harness compares with World.blocked), both variants *)
+Theorem c02_sleep_ok : forall (strict fx lat : bool) maxc lbs w sd,
+  lreach_v fx lat maxc lbs w ->
+  (if strict then sleepsb_v fx sd w else sleeps_eagerb_v fx sd w) = true -> sleep_okb_v fx strict sd w = true.
+Proof. exact sleep_okb_holds_v. Qed.
+Print Assumptions c02_sleep_ok.
+
+(* non-vacuity of (g3)/(g4): a reached state with a live handler at each end in which both ends sleep (the server
+   with nothing select() could report), no late STOP_SENDING is due, and which is quiescent *)
+Example c02_ex_sleeping_state :
+  lreach_asfound true 5 32768 calm_world /\
+  sleepsb_asfound Server calm_world = true /\ sleeps_eagerb_asfound Client calm_world = true /\
+  no_late_stopb Client calm_world = true /\ no_late_stopb Server calm_world = true /\
+  quiescentb calm_world = true.
+Proof.
+  split; [exact calm_reached|]. destruct calm_state as (A & B & C & D & _ & E). splits; assumption.
+Qed.
